@@ -30,8 +30,8 @@ CHECKS = {
             BMC + 'Every stop point k in 1..n, every failure point, buffer from 1.', TRUST2 + 'process pools: uncontrolled replay with marker files', 'DESIGN.md 2.2, 4 C05'),
     'C06': (E2 + '+' + E1, 'z3 BMC: error-position for Exception and BaseException-only failures of the source and of the mapped function; CrossHair for catch_filter_exception with a symbolic failure plan',
             BMC + 'One failing position per run in E2; E1: arbitrary subsets of failing positions, n<=3/4.', TRUST2 + 'known finding KF-C06-parmap-source-error-drops-buffered: the strong query is its witness, a weaker query must hold', 'DESIGN.md 2.2, 4 C06'),
-    'C07': (E2 + '+' + E1, 'z3 BMC with pulled/started/delivered counters in the encoded state: pulled-delivered<=B+2 and started-delivered<=B in every reachable state; CrossHair for the constructor assertions',
-            BMC + 'The bound is checked for n<=2/3 only (no induction over n is claimed).', TRUST2, 'DESIGN.md 2.2, 4 C07'),
+    'C07': (E2 + '+' + E1, 'z3 BMC with pulled/started/delivered counters in the encoded state: pulled-delivered<=B+2 and started-delivered<=B in every reachable state; for single_thread_prefetch additionally one-step induction over the same generated transition system (potential functions found by z3 over linear integer arithmetic, inductiveness decided by z3 over bit-vectors: every n<=100, schedules of any length); CrossHair for the constructor assertions',
+            BMC + 'Complete executions are checked for n<=2/3, execution prefixes for n<=6/8; for single_thread_prefetch an inductive invariant (verified by three unsat queries on the encoded transition relation, regenerated each run) lifts the pulled bound to every n<=100 and schedules of any length when it closes - if it does not close the claim stays the bounded one (reported as inconclusive). No induction for lazy_parallel_map.', TRUST2, 'DESIGN.md 2.2, 4 C07'),
     'C08': (E1, 'CrossHair: log of user-function applications of the real lazy pipeline equals the log of the same program written with plain generators, after construction, after k results and after point-wise access',
             BOUNDED + '16 program templates, n<=3/4, every prefix length k.', TRUST1 + 'serial contract for prefetch', 'DESIGN.md 4 C08'),
     'C09': (E1, 'CrossHair as exhaustive driver over selector histories (access path, target, mutation); each path runs the real pickle/deepcopy/numpy/diskcache code untraced and compares every access path with the pristine snapshot',
